@@ -193,6 +193,15 @@ def run(ctx) -> int:
 
     def probe(r, count):
         nonlocal n_dir
+        # the hand-made corner documents and every snippet first, under an all-rules configuration, every mode, plain and long quotes
+        for cd in SNIPPETS + docs.corner_docs():
+            for mode in ("replacements", "smartquotes", "both"):
+                for q in (QS[0], QS[-1]):
+                    cfg = configs.STANDARD[2]
+                    n_dir += 1
+                    d = direct_property(cfg, cd, mode, q)
+                    if d:
+                        return {"config": cfg, "src": cd, "mode": mode, "quotes": q, **d}
         for _ in range(count):
             cfg = configs.random_config(r)
             q = r.choice(QS)
